@@ -9,7 +9,7 @@ MODEL = "c10"
 GEN = []
 MINIMISE_BUDGET = 40
 MAX_REPORT = 4
-RULE = ("scenario = cache type (memory only, ufs, aufs, diskd, rock; small caches) x up to 3 URLs x a sequence of operations started in "
+RULE = ("scenario = cache type (memory only, shared memory cache of two SMP workers, ufs, aufs, diskd, rock; small caches) x up to 3 URLs x a sequence of operations started in "
         "order: origin updates of a URL fetched by a reloading client (sent at once, paced so that the following operations overlap the "
         "transfer, truncated under Content-Length, truncated chunked), readers (normal, or slow with a 4 KB receive buffer that stop "
         "after the response head while later operations run), filler fetches that force eviction, PURGE; sizes across the 4 KB memory "
@@ -19,7 +19,8 @@ RULE = ("scenario = cache type (memory only, ufs, aufs, diskd, rock; small cache
 TRUSTED = ["modelled, not verified: Comm I/O, HTTP parsing, DiskIO modules, the mapping of mem_node pages / shm pages / rock slots / ufs files "
            "onto the model's slots and of StoreEntry::lock / StoreMap read locks onto the model's reader lists (C53-C56 cover the lock-free layers), "
            "the rig's origin and client stubs"]
-ASSUMPTIONS = ["-N mode: no SMP workers, so the shared memory cache (MemStore over shm pages) is exercised by C19's rig, not here",
+ASSUMPTIONS = ["-N mode except for the `shm` instance (two workers, memory_cache_shared on; needs the build's DEFAULT_STATEDIR "
+               "/usr/local/squid/var/run/squid, which the harness creates); SMP rock diskers are C19's",
                "cacheable 200 responses with validators; collapsed_forwarding off (default)",
                "which of the admissible versions a reader gets depends on timing; the model only fixes the admissible set"]
 MANIFEST = {
@@ -29,11 +30,11 @@ MANIFEST = {
             "hit_eq_some_complete_version, truncated_never_complete and no_free_while_read show that every reader copies, in order, chunks of "
             "the one response it attached to, is told 'complete' only after the last chunk of a completely stored response, and never for an "
             "aborted one, also while the entry is replaced, purged or the cache evicts; the model is tied to the rebuilt binary by scenario "
-            "correspondence (each response names an admissible version) and a direct byte-for-byte oracle over five cache types",
+            "correspondence (each response names an admissible version) and a direct byte-for-byte oracle over six cache types",
     "note": "trusted: Lean kernel, python rig (origin/client stubs), loopback TCP; not modelled: bytes inside a slot (C53/C57), swap metadata, "
-            "DiskIO modules and I/O errors, SMP shared memory (C19), Vary, range requests",
+            "DiskIO modules and I/O errors, SMP rock diskers (C19), Vary, range requests",
     "technique": "Lean 4 proof (invariant over all interleavings of writers, readers and the replacement policy) + end-to-end scenario "
-                 "correspondence with five rebuilt squid instances",
+                 "correspondence with six rebuilt squid instances (one with two SMP workers)",
 }
 
 
@@ -136,7 +137,7 @@ def mutate(rng, l):
 def cases(rng, tier):
     yield from boundary_cases()
     yield from exhaustive_cases(tier)
-    n = 100 if tier == "thorough" else 10
+    n = 90 if tier == "thorough" else 9
     base = []
     for store in H.STORES:
         for i in range(n):
@@ -157,6 +158,8 @@ def oracle(l, impl):
     sc = H.parse_line(l)
     if sc is None:
         return None if impl == "bad-op" else "harness accepted a malformed scenario"
+    if impl.startswith("skip:"):
+        return None                      # this machine cannot run SMP workers (reported in the distribution)
     if impl.startswith("abort") or impl == "bad-op":
         return "no usable observation: " + impl[:200]
     toks = tokens(impl)
@@ -189,6 +192,8 @@ def compare(l, impl, model):
     sc = H.parse_line(l)
     if sc is None:
         return impl == model
+    if impl.startswith("skip:"):
+        return True
     a, b = tokens(impl), tokens(model)
     if len(a) != len(b):
         return False
@@ -216,6 +221,8 @@ def tag(l, impl, model):
     sc = H.parse_line(l)
     if sc is None:
         return "bad-op"
+    if (impl or "").startswith("skip:"):
+        return "%s skipped" % sc["store"]
     hits = (impl or "").count(":hit")
     cut = (impl or "").count(":I")
     overlap = any(op[0] == "U" and op[5] and op[6] for op in sc["ops"])
